@@ -17,6 +17,8 @@ PRE = 'From V Require Import lib.Common model.Store model.Duplicates.\nLocal Ope
 MUTATIONS = ['none', 'same_line', 'ws_pair', 'reversed_pair', 'ws_species', 'ws_fs', 'ws_sig', 'sig_other_params', 'dup_section', 'table_dup', 'table_ws_dup',
              'table_vs_formula', 'table_vs_builtin', 'ws_option']
 
+ADDABLE = ('same_line', 'ws_pair', 'reversed_pair', 'ws_species', 'ws_fs', 'ws_sig', 'ws_option')
+
 def find_section(m, name):
     for s, es in m['sections']:
         if s[0] == name: return s, es
@@ -32,7 +34,7 @@ def mutate(rng, m, kind):
         e = copy.deepcopy(rng.choice(c))
         if newsp is not None: e['sp'] = (e.get('sp', 0) + newsp) % 20
         if newkey: e['key'] = newkey(e['key'])
-        e['val'] = e['val']
+        e['val'] = e['val']; e['_dup'] = True
         es.insert(rng.randint(0, len(es)), e); return True
     if kind == 'none': return m
     if kind == 'same_line': return m if dup(rng.choice(['Pair', 'Tabulation']), lambda e: True) else None
@@ -64,11 +66,22 @@ def gen_case(rng):
                             with_table=True if kind.startswith('table_') and kind not in ('table_vs_formula', 'table_vs_builtin') else None,
                             kind=rng.choice(['eam', 'fs']) if kind == 'ws_species' else ('fs' if kind == 'ws_fs' else None))
         m = mutate(rng, base, kind)
-        if m is not None: return {'model': m, 'mutation': kind}
+        if m is not None:
+            # the second definition may also arrive through the additional-items route (ConfigParser(additional=..), potable --add-item)
+            route = 'additional' if (kind in ADDABLE and rng.random() < 0.35) else 'file'
+            return {'model': m, 'mutation': kind, 'route': route}
     return {'model': base, 'mutation': 'none'}
 
 def run_impl(case):
-    from atsim.potentials.config import Configuration
+    from atsim.potentials.config import Configuration, ConfigParser, ConfigParserOverrideTuple as O
+    if case.get('route') == 'additional':
+        m = copy.deepcopy(case['model']); extra = []
+        for s, es in m['sections']:
+            for e in list(es):
+                if e.get('_dup'):
+                    es.remove(e); extra.append(O(sc.sect_name(s), sc.key_text(tuple(e['key']) if not isinstance(e['key'][-1], list) else (e['key'][0], e['key'][1], list(e['key'][2])), e.get('sp', 0)), e['val']))
+        if extra:
+            return sc.classify(lambda: Configuration().read_from_parser(ConfigParser(io.StringIO(sc.render(m)), additional=extra)) and 'table')
     return sc.classify(lambda: Configuration().read(io.StringIO(sc.render(case['model']))) and 'table')
 
 def correspond(ctx):
